@@ -11,8 +11,8 @@ SCRIPT_NOTE = ("Trusted: Coq kernel, extraction (ExtrOcamlBasic), OCaml driver, 
 
 CLAIMED = {
     "C01": ("Coq theorems on the frame/line layer (soundness of response parsing and of the per-try decision) + model/code correspondence on generated scripts + extracted judge C01_call_ok on the implementation's observations",
-            "Proved for all inputs: whatever line the driver accepts is a valid response of the expected type with correct check byte (C01_line_sound), a value is extracted only from a valid type-7 frame with the requested address and flag 0 and equals the rest of its payload (C01_get_value_sound), foreign addresses and non-zero flags never yield a value, the check byte detects every single-byte change. The executable driver model (port, bufio, retry loop) is compared with the real driver on every generated script, and the extracted predicate C01_call_ok (a returned value implies a valid matching frame inside the received bytes) is evaluated on every implementation observation.",
-            SCRIPT_NOTE + "Partial: the lift of the line-level theorems through the bufio/port model to the byte stream is exercised by the judge, not yet a theorem.",
+            "C01_get_sound is the property itself: for every logger configuration, driver state (stale buffer), address, idle flag and device script with any faults and retries, a returned value implies that (bytes buffered before the call ++ bytes handed out by the port during it) contain ':' body '\\n' with body a valid type-7 response for the address, flag 0, carrying exactly that value; C01_uint/int/string/device_id_sound extend it to the typed accessors. Also proved: whatever line the driver accepts is a valid response of the expected type with correct check byte (C01_line_sound), a value is extracted only from a valid type-7 frame with the requested address and flag 0 and equals the rest of its payload (C01_get_value_sound), foreign addresses and non-zero flags never yield a value, the check byte detects every single-byte change. The executable driver model (port, bufio, retry loop) is compared with the real driver on every generated script, and the extracted predicate C01_call_ok (a returned value implies a valid matching frame inside the received bytes) is evaluated on every implementation observation.",
+            SCRIPT_NOTE,
             "DESIGN.md 4/C01"),
     "C02": ("Coq theorems (little-endian, two's-complement, NUL stripping, hex, response completeness) + correspondence + expectation judge on generated device values",
             "Proved for all values: le_uint/le_int invert the wire encoding for widths 1,2,4,8 over the full range (bit 63 included), other widths are an error, strip_nul removes exactly the trailing NULs, every valid response (any hex case) is accepted with exactly its payload. Driver-level round trip is checked on exhaustive 1-byte (quick) / 2-byte (thorough) values, boundary and random 4/8-byte values, strings up to 64 bytes, device ids and call sequences.",
@@ -30,8 +30,8 @@ CLAIMED = {
             "Proved: a Get response for the requested address with flag 1, 2 or 4 (any trailing payload) is classified as ErrUnknownId / ErrorNotSupported / ErrorParameterError, the retry loop returns it in the state reached after that single exchange, and an exchange performs exactly one Write. Checked on the implementation for all accessors, boundary and random addresses, 0..8 trailing bytes, async prefixes and every flag byte.",
             SCRIPT_NOTE, "DESIGN.md 4/C05"),
     "C06": ("Coq theorems (no call panics for any state/script/fault schedule; at most eight writes; one write per exchange) + correspondence with a fault injected at every I/O index + read budget/watchdog",
-            "Proved for every logger configuration, driver state, device script and fault schedule: no driver call panics; response parsing is total; at most eight Write calls per register access. The implementation is run with a write fault at every write index, read error/timeout/empty read at every byte position, every prefix of every valid answer, every response nibble with short payloads, random streams; reads after end of data are bounded (1 per attempt, 100 in no-progress mode) and a read budget plus a watchdog turn a hang into a reported violation.",
-            SCRIPT_NOTE + "Partial: termination of the modelled loops (no OutOfFuel) is exercised, not yet proved; blocking of a real port is runtime behaviour.",
+            "C06_total: for every logger configuration, driver state, device script and fault schedule every driver call returns a value or an error: it neither panics nor runs out of the supplied fuel (the modelled bufio loop, async-skipping loop and retry loop terminate; measure-based proof); no driver call panics; response parsing is total; at most eight Write calls per register access. The implementation is run with a write fault at every write index, read error/timeout/empty read at every byte position, every prefix of every valid answer, every response nibble with short payloads, random streams; reads after end of data are bounded (1 per attempt, 100 in no-progress mode) and a read budget plus a watchdog turn a hang into a reported violation.",
+            SCRIPT_NOTE + "Blocking of a real port is runtime behaviour: the theorems bound the I/O calls of the model, the harness bounds those of the code.",
             "DESIGN.md 4/C06"),
     "C18": ("Coq theorem: simulation between any two logger configurations for every call and history + implementation run under all four configurations + I/O log replay + file logger on real files",
             "Proved: for any two logger configurations and states agreeing on reader and port, every call (and every history) returns the same result and leaves the same reader/port state; without an I/O logger no line is emitted. Every generated case is run on the real driver under all four configurations and the observations must be identical; the I/O lines (unquoted) must equal the model's (tx = frames written, rx = bytes consumed), and each typed call completed in one exchange is replayed through a lookup port. The file logger is run on real files (pre-existing content, lines longer than the 4096-byte buffer).",
